@@ -527,3 +527,139 @@ def provider(tier="quick"):
 if __name__ == "__main__":
     for o in provider():
         print(o.status, o.id, round(o.solver_s, 3), o.model or o.detail or "")
+
+# ================================================================================================ E1: the common run loop
+import z3  # noqa: E402
+from vf.pyvc import And, Contract, Implies, Loop, NS, Not, Or, R, Ref, register, is_z3  # noqa: E402
+
+MD = z3.Function("c14_mdiff", z3.IntSort(), z3.RealSort())    # max message change reported by the k-th call of iterate
+AMD = z3.Function("c14_amd", z3.IntSort(), z3.RealSort())     # RollingDiffMean.absmeandiff() after k updates
+
+
+class _Tok:
+    def __init__(self, name):
+        self.name = name
+
+
+@register
+class BPRun(Contract):
+    target = f"{COMMON}::BeliefPropagationCommon.run"
+    property_ids = ("C14",)
+    floor = 10
+    safety = False
+    ghost_fields = ("converged", "n", "g_calls", "g_updates", "g_contracts", "g_callbacks")
+
+    def cases(self):
+        return [NS(name=f"tol_abs={ta},rolling={ro},info={inf},callback={cb}", ta=ta, ro=ro, inf=inf, cb=cb)
+                for ta in ("None", "given") for ro in ("zero", "None", "given") for inf in (False, True) for cb in (False, True)]
+
+    def inputs(self, cx, case):
+        mi, tol = cx.Int("max_iterations"), cx.Real("tol")
+        n0 = cx.Int("n0")
+        self_ = cx.new_obj("BP", converged=cx.Bool("conv0"), n=n0, mdiffs=_Tok("mdiffs"), rdiffs=_Tok("rdiffs"),
+                           callback=_Tok("callback") if case.cb else None, _diis=_Tok("old-diis"),
+                           g_calls=0, g_updates=0, g_contracts=0, g_callbacks=0)
+        ta = None if case.ta == "None" else cx.Real("tol_abs")
+        ro = {"zero": 0.0, "None": None, "given": cx.Real("tol_rolling")}[case.ro]
+        cx.ghost.update(n0=n0, self_=self_)
+        return dict(self=self_, max_iterations=mi, diis=False, tol=tol, tol_abs=ta, tol_rolling_diff=ro,
+                    info={} if case.inf else None, progbar=False)
+
+    def requires(self, a, case):
+        # max_iterations == 0 raises UnboundLocalError on the unchanged tree (reported defect): outside this contract
+        return {"at-least-one-iteration-allowed": a.max_iterations >= 1}
+
+    def _eff(self, a, case):
+        ta = a.tol if case.ta == "None" else a.tol_abs
+        ro = {"zero": None, "None": a.tol, "given": a.tol_rolling_diff}[case.ro]
+        return R(ta), ro
+
+    def _crit(self, a, case, k):
+        """convergence criterion evaluated after the k-th iteration (k >= 1)"""
+        ta, ro = self._eff(a, case)
+        c = MD(k - 1) < ta
+        if ro is not None:
+            c = Or(c, And(R(ro) > 0, AMD(k) < R(ro)))
+        return c
+
+    def inv(self, v):
+        cx, case, a = v.cx, v.case, v.old
+        f = cx.fields(cx.ghost["self_"])
+        it = v.it
+        d = {"count": And(it >= 0, it <= a.max_iterations, f["g_calls"] == it, f["n"] == cx.ghost["n0"] + it,
+                          f["g_contracts"] == it, f["g_callbacks"] == (it if case.cb else 0)),
+             "converged-iff-last-criterion": f["converged"] == And(it >= 1, self._crit(a, case, it)),
+             "rolling-updates": f["g_updates"] == (0 if case.ro == "zero" else
+                                                   z3.If(R(self._eff(a, case)[1]) > 0, it, 0))}
+        if "max_mdiff" in v.__dict__ and is_z3(v.__dict__["max_mdiff"]):
+            d["last-mdiff"] = Implies(it >= 1, v.max_mdiff == MD(it - 1))
+        else:
+            d["last-mdiff"] = it == 0
+        return d
+
+    @property
+    def loops(self):
+        return {0: Loop("while not self.converged and it < max_iterations", self.inv,
+                        retype={"max_mdiff": lambda cx: cx.Real("max_mdiff"), "result": lambda cx: _Tok("result"),
+                                "amd": lambda cx: cx.Real("amd")},
+                        extra_modifies=("max_mdiff",))}
+
+    def call(self, cx, name, args, kwargs, node):
+        g = cx.ghost
+        f = cx.fields(g["self_"])
+        if name == "RollingDiffMean":
+            return _Tok("rdm")
+        if name == "self._maybe_contract":
+            f["g_contracts"] = f["g_contracts"] + 1
+            return None
+        if name == "self.iterate":
+            a = cx.old
+            cx.oblige(f"iterate-gets-tol@{node.lineno}", "call-pre",
+                      And(len(args) == 0, set(kwargs) == {"tol"}, R(kwargs.get("tol", 0)) == R(a.tol)), node.lineno)
+            k = f["g_calls"]
+            f["g_calls"] = k + 1
+            return MD(k)
+        if name == "__isinstance__" and args[1] == "dict":
+            return isinstance(args[0], dict)
+        if name == "self.mdiffs.append":
+            cx.oblige(f"mdiff-recorded@{node.lineno}", "call-pre", R(args[0]) == MD(f["g_calls"] - 1), node.lineno)
+            return None
+        if name == "self.rdiffs.append":
+            return None
+        if name == "rdm.update":
+            cx.oblige(f"rolling-mean-fed-with-mdiff@{node.lineno}", "call-pre", R(args[0]) == MD(f["g_calls"] - 1), node.lineno)
+            f["g_updates"] = f["g_updates"] + 1
+            return None
+        if name == "rdm.absmeandiff":
+            return AMD(f["g_calls"])
+        if name == "self.callback":
+            cx.oblige(f"callback-gets-self@{node.lineno}", "call-pre", isinstance(args[0], Ref) and args[0] == g["self_"], node.lineno)
+            f["g_callbacks"] = f["g_callbacks"] + 1
+            return None
+        if name == "dict" and not args and not kwargs:
+            return {}
+        if name == "warnings.warn":
+            g["warned"] = True
+            return None
+        if name in ("__bitop__", "__binop__"):
+            op, x, y = args
+            if op == "BitOr" and all(isinstance(q, bool) or (is_z3(q) and z3.is_bool(q)) for q in (x, y)):
+                return Or(x, y)  # python: bool | bool
+        return NotImplemented
+
+    def ensures(self, a, r, cx, case):
+        f = cx.fields(cx.ghost["self_"])
+        it = cx.env["it"]
+        d = {"returns-none": r is None,
+             "max-iterations-respected": And(it >= 1, it <= a.max_iterations, f["g_calls"] == it, f["n"] == cx.ghost["n0"] + it),
+             "stops-only-when-converged-or-exhausted": Or(f["converged"], it == a.max_iterations),
+             "converged-iff-last-criterion": f["converged"] == self._crit(a, case, it),
+             "final-contract-hook": f["g_contracts"] == it + 1,
+             "no-diis": f["_diis"] is None,
+             "warned-iff-unconverged": (z3.BoolVal(bool(cx.ghost.get("warned"))) == And(R(a.tol) != 0, Not(f["converged"])))}
+        if case.inf:
+            info = cx.env["info"]
+            d["info-filled"] = And(set(info) == {"converged", "iterations", "max_mdiff", "rolling_abs_mean_diff"},
+                                   info.get("converged") == f["converged"], info.get("iterations") == it,
+                                   info.get("max_mdiff") == MD(it - 1), info.get("rolling_abs_mean_diff") == AMD(it))
+        return d
